@@ -29,6 +29,10 @@ type CaseC18 struct {
 	RT      []*rgen.Msg
 	Static  []*sgen.Feed
 	Inherit bool
+	// Inputs that the parsers reject (random bytes, truncated messages, archives with a zero-byte or garbage member): a call that
+	// fails must fail the same way concurrently, and must not disturb the calls running next to it. Indexed after RT and Static.
+	BadRT     [][]byte `json:",omitempty"`
+	BadStatic [][]byte `json:",omitempty"`
 	// Plan[g] lists the inputs goroutine g parses, in order: index < len(RT) is a realtime message, otherwise static feed index-len(RT).
 	Plan [][]int
 }
@@ -37,7 +41,7 @@ var c18Rec = vt.NewRecorder("C18", "TestC18",
 	"generated workloads: 2-4 inputs (realtime messages with elevator alerts / NYCT trips / plain, and static feeds; the byte buffers are shared), ONE shared options value per case for every bundled extension configuration "+
 		"(Extension nil, explicit no-op, NYCT trips, NYCT alerts), 4-16 goroutines x 2-8 calls each in a generated assignment, started together; then a second phase in which every goroutine hashes trips and vehicles, walks Root() "+
 		"normalises, and builds + exports a journal from results returned by OTHER goroutines. Oracle: built with the race detector (any report, 'concurrent map' fatal error or panic is a violation) and every call's normal form equals the sequential reference computed beforehand with fresh equivalent options. "+
-		"Non-trivial = >=2 goroutines share the options value and an input touches extension state (elevator alerts, NYCT trips) or the nil-extension path")
+		"Some inputs are ones the parsers reject (they must fail the same way concurrently and must not disturb their neighbours). Non-trivial = >=2 goroutines share the options value and an input touches extension state (elevator alerts, NYCT trips) or the nil-extension path")
 
 func init() { registerReplay("C18", "TestC18", checkC18Replay) }
 
@@ -69,18 +73,21 @@ func checkC18Replay(c CaseC18) error {
 }
 
 func checkC18(c CaseC18) error {
-	nIn := len(c.RT) + len(c.Static)
+	nIn := len(c.RT) + len(c.Static) + len(c.BadRT) + len(c.BadStatic)
 	if nIn == 0 || len(c.Plan) == 0 {
 		return vt.Failf("malformed case")
 	}
-	rtBytes := make([][]byte, len(c.RT))
-	for i, m := range c.RT {
-		rtBytes[i] = m.Marshal()
+	// realtime inputs first (good, then rejected), static inputs after them (good, then rejected)
+	rtBytes := make([][]byte, 0, len(c.RT)+len(c.BadRT))
+	for _, m := range c.RT {
+		rtBytes = append(rtBytes, m.Marshal())
 	}
-	stBytes := make([][]byte, len(c.Static))
-	for i, f := range c.Static {
-		stBytes[i] = sgen.Render(f.Tables(), sgen.Canonical())
+	rtBytes = append(rtBytes, c.BadRT...)
+	stBytes := make([][]byte, 0, len(c.Static)+len(c.BadStatic))
+	for _, f := range c.Static {
+		stBytes = append(stBytes, sgen.Render(f.Tables(), sgen.Canonical()))
 	}
+	stBytes = append(stBytes, c.BadStatic...)
 	sopts := gtfs.ParseStaticOptions{InheritWheelchairBoarding: c.Inherit}
 	shared := c.Ext.options(c.Zone) // one options value for every goroutine
 	type result struct {
@@ -119,14 +126,22 @@ func checkC18(c CaseC18) error {
 	for i := range rtBytes {
 		r, err := gtfs.ParseRealtime(rtBytes[i], c.Ext.options(c.Zone))
 		if err != nil {
-			return vt.Failf("ParseRealtime rejected a well-formed message: %v", err)
+			if i < len(c.RT) {
+				return vt.Failf("ParseRealtime rejected a well-formed message: %v", err)
+			}
+			ref[i] = "ERROR"
+			continue
 		}
 		ref[i] = rgen.JS(rgen.Normalize(r))
 	}
 	for i := range stBytes {
 		s, err := gtfs.ParseStatic(stBytes[i], sopts)
 		if err != nil {
-			return vt.Failf("ParseStatic rejected a well-formed archive: %v", err)
+			if i < len(c.Static) {
+				return vt.Failf("ParseStatic rejected a well-formed archive: %v", err)
+			}
+			ref[len(rtBytes)+i] = "ERROR"
+			continue
 		}
 		ref[len(rtBytes)+i] = sgen.JS(sgen.Normalize(s))
 	}
@@ -144,7 +159,14 @@ func checkC18(c CaseC18) error {
 				}
 				for _, res := range results[other] {
 					if res.err != nil {
-						errs[g] = vt.Failf("concurrent call on input %d failed: %v", res.input, res.err)
+						if ref[res.input] != "ERROR" {
+							errs[g] = vt.FailSig("concurrent-differs", "concurrent call on input %d failed although the same call succeeds alone: %v", res.input, res.err)
+							return
+						}
+						continue
+					}
+					if ref[res.input] == "ERROR" {
+						errs[g] = vt.FailSig("concurrent-differs", "concurrent call on input %d succeeded although the same call fails alone", res.input)
 						return
 					}
 					var js string
@@ -189,6 +211,8 @@ func checkC18(c CaseC18) error {
 }
 
 func genC18(t *rapid.T) (CaseC18, bool) {
+	c06NoSizeClasses = true
+	defer func() { c06NoSizeClasses = false }()
 	zone := rapid.SampledFrom([]string{"", "America/New_York"}).Draw(t, "zone")
 	c := CaseC18{Zone: zone, Ext: genExtSpec(t), Inherit: rapid.Bool().Draw(t, "inherit")}
 	nRT := rapid.IntRange(1, 3).Draw(t, "nRealtime")
@@ -203,8 +227,54 @@ func genC18(t *rapid.T) (CaseC18, bool) {
 		f, _ := sgen.GenFeed(t, o)
 		c.Static = append(c.Static, f)
 	}
+	// rejected inputs
+	for i := rapid.IntRange(0, 2).Draw(t, "nBadRT"); i > 0; i-- {
+		c.BadRT = append(c.BadRT, rapid.SampledFrom([][]byte{{}, {0xff, 0xff, 0xff}, []byte("\x0a\x05\x0a\x031.0\x12\x03abc"), []byte("not a protobuf")}).Draw(t, "badRT"))
+	}
+	for i := rapid.IntRange(0, 2).Draw(t, "nBadStatic"); i > 0; i-- {
+		o := sgen.DefaultGenOpts()
+		o.MaxStops, o.MaxTrips, o.MaxStopTimes = 3, 2, 2
+		f, _ := sgen.GenFeed(t, o)
+		ts := f.Tables()
+		var b []byte
+		switch rapid.IntRange(0, 3).Draw(t, "badStaticKind") {
+		case 0: // a zero-byte member
+			which := ts[rapid.IntRange(0, len(ts)-1).Draw(t, "zeroMember")].Name
+			cc := CaseC05Static{}
+			for i := range ts {
+				data := sgen.RenderCSV(&ts[i], sgen.FilePres{})
+				if ts[i].Name == which {
+					data = nil
+				}
+				cc.Members = append(cc.Members, struct {
+					Name string
+					Data []byte
+				}{ts[i].Name, data})
+			}
+			b = c05BuildArchive(cc)
+		case 1: // a member that is not CSV
+			cc := CaseC05Static{}
+			for i := range ts {
+				data := sgen.RenderCSV(&ts[i], sgen.FilePres{})
+				if i == 2 {
+					data = []byte("stop_id\n\"unterminated")
+				}
+				cc.Members = append(cc.Members, struct {
+					Name string
+					Data []byte
+				}{ts[i].Name, data})
+			}
+			b = c05BuildArchive(cc)
+		case 2: // truncated archive
+			full := sgen.Render(ts, sgen.Canonical())
+			b = full[:len(full)/2]
+		default:
+			b = []byte("PK not a zip")
+		}
+		c.BadStatic = append(c.BadStatic, b)
+	}
 	nG := rapid.IntRange(4, 16).Draw(t, "goroutines")
-	nIn := nRT + nSt
+	nIn := nRT + nSt + len(c.BadRT) + len(c.BadStatic)
 	for g := 0; g < nG; g++ {
 		calls := rapid.IntRange(2, 8).Draw(t, "calls")
 		var plan []int
